@@ -333,6 +333,10 @@ def run_c15(ctx):
         rep.note("store-buffer variant (sync/MutexV2Tso): both fences -> no lost wake-up under TSO and under a non-draining RMW; "
                  "without the process_queue() fence a wake-up is lost already on TSO; without the start() fence it is lost "
                  "when the exchange is not a full barrier (on x86-TSO the locked exchange makes that fence redundant)")
+    if res.get("list"):
+        rep.note("list refinement: TLC checked PROPERTY Refines (prim/AtomicIntrusiveList => prim/AbstractList under the mapping of "
+                 "prim/AtomicIntrusiveListRef) together with the list invariants on %s (%d states); MutexV2 re-checked over that "
+                 "abstract list (MutexV2TwoPhase.cfg, %d states)" % (listcfg, res["list"]["distinct"], (res.get("v2tp") or {}).get("distinct", 0)))
     r = res.get("kill") or {"kind": "skipped"}
     if r["kind"] == "invariant":
         rep.oos.append(dict(kind="tlc", module="prim/AtomicIntrusiveList", violated=r["violated"],
